@@ -812,7 +812,29 @@ func differential(src, layout, alt string, first runResult) (verdict, a1, b stri
 // unsandboxed reports whether the slot's function uses a plain absolute
 // outside path as given (no links involved): a direct violation, or output
 // that depends on whether the outside tree exists.
+var (
+	unsandboxedMu    sync.Mutex
+	unsandboxedCache = map[string]bool{}
+)
+
+// unsandboxed is a pure function of (slot, variant) and the code under test,
+// so its answer is computed once per process.
 func unsandboxed(s *slot, c Case) bool {
+	key := c.Slot + "|" + c.Variant
+	unsandboxedMu.Lock()
+	v, ok := unsandboxedCache[key]
+	unsandboxedMu.Unlock()
+	if ok {
+		return v
+	}
+	v = unsandboxedProbe(s, c)
+	unsandboxedMu.Lock()
+	unsandboxedCache[key] = v
+	unsandboxedMu.Unlock()
+	return v
+}
+
+func unsandboxedProbe(s *slot, c Case) bool {
 	probe := Case{Slot: c.Slot, Variant: c.Variant, Layout: "none", Form: "direct", Alt: "C"}
 	pref := prefTarget(s)
 	if len(pref) > 2 {
@@ -887,6 +909,10 @@ func layoutsWith(mech string, allowed []string) []string {
 
 func gen(t *rapid.T) Case {
 	ct := getCatalogue()
+	poolOnce.Do(func() { pool = systematic(false) })
+	if rapid.Bool().Draw(t, "systematic") {
+		return pool[rapid.IntRange(0, len(pool)-1).Draw(t, "index")]
+	}
 	var c Case
 	c.Slot = rapid.SampledFrom(ct.ids).Draw(t, "slot")
 	s := ct.slots[c.Slot]
@@ -966,11 +992,14 @@ func layoutFor(mech string) string {
 	return "none"
 }
 
-// fixed is the systematic core: for every slot and variant, inside targets as
-// controls and one spelling of every escape mechanism (for path slots: against
-// each preferred target), and each receiver function of the result once with
-// an inside path and once per link mechanism and absolute path.
-func fixed() []Case {
+// systematic enumerates, for every slot and variant: inside targets as
+// controls; one spelling of every escape mechanism against each preferred
+// target; each receiver function of the result with an inside path, with an
+// absolute outside path and through each kind of link; the SQL-text cases.
+// core = true keeps the part that is run in full at the start of every run
+// (controls, and every mechanism against the first preferred target); the whole
+// list is the pool the random part draws half of its cases from.
+func systematic(core bool) []Case {
 	ct := getCatalogue()
 	var cases []Case
 	controls := []string{"canary.txt", "canary.json", "canary.db", "canary.sh", "", "sub_out", "newfile.txt", "newdir/deep"}
@@ -1004,18 +1033,24 @@ func fixed() []Case {
 			}
 		}
 		for vi, v := range s.Variants {
-			if vi > 0 && s.F.Pkg == "sql" {
-				continue // the second driver spelling is left to the random part (each SQLite case costs ~0.5 s)
+			if core && vi > 0 && s.F.Pkg == "sql" {
+				continue // each SQLite case costs ~0.5 s
 			}
 			for _, T := range controls {
 				cases = append(cases, Case{Slot: id, Variant: v, Layout: "none", Target: T, Class: "rel", Mech: "none", Path: map[bool]string{true: ".", false: T}[T == ""], Form: "direct", Alt: "C"})
 			}
 			pref := prefTarget(s)
-			if !s.PathLike {
+			if !s.PathLike || core {
 				pref = pref[:1]
 			}
 			for _, T := range pref {
 				escapes(v, "", T, allMechs)
+			}
+			if core && s.PathLike && len(prefTarget(s)) > 1 && strings.HasPrefix(prefTarget(s)[1], "new") {
+				escapes(v, "", prefTarget(s)[1], []string{"symlink-dangling"})
+			}
+			if core {
+				continue
 			}
 			if ss, _, _ := sqlSlot(ct); ss == s {
 				for _, name := range sqlNames {
@@ -1041,6 +1076,13 @@ func fixed() []Case {
 	}
 	return cases
 }
+
+func fixed() []Case { return systematic(true) }
+
+var (
+	poolOnce sync.Once
+	pool     []Case
+)
 
 // ---------------------------------------------------------------- test
 
@@ -1093,7 +1135,7 @@ func TestC26(t *testing.T) {
 		Gen:       gen,
 		Oracle:    oracle,
 		Fixed:     fixed,
-		Quick:     800,
+		Quick:     500,
 		Thorough:  4000,
 		MaxRounds: 12,
 		Extra: func() map[string]any {
